@@ -712,6 +712,8 @@ def read_regions(ds):
         per = ds.alignment_intervals()
     else:
         for r in ds.reads:
+            if (r.get("flag", 0) & 4) or not r.get("cigar") or r.get("chr") is None or not isinstance(r["cigar"], str):
+                continue      # an unmapped read / a record without CIGAR forms no read region (audit2-A: TypeError on cigar None)
             ln = sum(int(n) for n, op in re.findall(r"(\d+)([MDN=X])", r["cigar"]))
             per.setdefault(r["chr"], []).append((r["start0"] + 1, r["start0"] + ln))
     res = {}
